@@ -970,6 +970,11 @@ func evalActionRemove(node *ActionExpression, env *Environment) Object {
 			obj = pos.Get(obj)
 		}
 
+		if isUndefined(obj) {
+			// the path leads through something that is not there: nothing to remove
+			return UNDEFINED
+		}
+
 		errObj = positions[0].Remove(obj)
 		if isError(errObj) {
 			return errObj
